@@ -76,7 +76,9 @@ SPEC = {
         "tables_as_modelled", "insert_shift", "line_shift", "line_shift_before", "inline_trivia_shift",
         "lineCol_injective", "lineCol_bounds", "include_location", "include_independent_of_includer",
         "sourceLocation_eq", "location_in_range", "line_shift_located", "later_files_unaffected",
-        "earlier_files_unaffected"]],
+        "earlier_files_unaffected", "sourceLine_eq_lineAround", "writeMessage_located", "writeMessage_unlocated",
+        "message_render_shift", "boundary_preserved", "trivia_insensitive", "toy_lexesAs", "toy_adjacent",
+        "toy_distant", "angle_bracket_not_closed"]],
     "harness": "c14",
     "nontrivial": nontrivial,
     "finding_key": finding_key,
